@@ -178,9 +178,11 @@ func c20Algebra(m, o matrix.Matrix3, v matrix.Vector3) (kind, msg string) {
 }
 
 func c20SingularPanics(m matrix.Matrix3) (kind, msg string) {
-	_, pan := c12Call(func() matrix.Matrix3 { return m.Inverse() })
-	if pan == nil {
-		return "singular-no-panic", fmt.Sprintf("Inverse of exactly singular %v returned instead of panicking", m)
+	for attempt := 1; attempt <= 2; attempt++ { // twice in a row: the outcome must not depend on call history
+		_, pan := c12Call(func() matrix.Matrix3 { return m.Inverse() })
+		if pan == nil {
+			return "singular-no-panic", fmt.Sprintf("Inverse of exactly singular %v returned instead of panicking (call %d in a row)", m, attempt)
+		}
 	}
 	return "", "ok"
 }
@@ -398,6 +400,15 @@ func runC20(r *core.Run) {
 			matrix.Matrix3{{e, 0, 0}, {0, a, b}, {0, d, e + 1}}, matrix.Matrix3{{a, b, 0}, {d, e + 4, 0}, {0, 0, e}},
 			matrix.Matrix3{{e + 3, a, b}, {a, e + 4, d}, {b, d, e + 5}}, matrix.Matrix3{{1, a, b}, {-a, 1, d}, {-b, -d, 1}},
 			matrix.Matrix3{{e, 0, 0}, {a, e + 1, 0}, {b, d, e + 2}}, matrix.Matrix3{{e, a, b}, {0, e + 1, d}, {0, 0, e + 2}})
+	}
+	for _, m := range append([]matrix.Matrix3{}, structured...) {
+		var neg matrix.Matrix3
+		for c := 0; c < 3; c++ {
+			for rw := 0; rw < 3; rw++ {
+				neg[c][rw] = -math.Abs(m[c][rw]) // all entries <= 0, exact zeros kept
+			}
+		}
+		structured = append(structured, neg)
 	}
 	for _, m := range structured {
 		if kind, msg := c20Algebra(m, matrix.Matrix3{{1, 2, 3}, {4, 5, 6}, {7, 8, 10}}, matrix.Vector3{1, -2, 3}); kind != "" {
